@@ -108,7 +108,7 @@ fn gen_base(t: &mut Tape) -> Scenario {
     }
     opts.store(&mut sc);
     raw.store(&mut sc);
-    sc.set_i("rk", if ep == EP_STREAM { RK_SLICE } else { [RK_SIM, RK_SIM, RK_BUFREADER][t.below(3) as usize] });
+    sc.set_i("rk", if ep == EP_STREAM { RK_SLICE } else { [RK_SIM, RK_SIM, RK_BUFREADER, RK_SIM_ANYCALL][t.below(4) as usize] });
     sc.set_i("bufcap", gen::draw_bufcap(t, 64));
     sc.set_l("src_script", gen::draw_script(t));
     sc.set_l("sink_script", gen::draw_script(t));
@@ -378,6 +378,9 @@ impl C12 {
         if fired && sc.i("ep") == EP_STREAM && o.calls.iter().any(|(op, _, f)| *f && matches!(*op, OP_WRITE | OP_WRITE_ALL | OP_WRITE_N)) {
             ctx.stats.hit("probe.sink_fault_fired_inside_stream_write");
         }
+        if fired && site.map(|s| s.0) == Some(0) && sc.i("rk") == RK_SIM_ANYCALL {
+            ctx.stats.hit("fault.fired.source_error_on_a_call_that_may_have_bytes_buffered");
+        }
         if fired {
             ctx.stats.hit("arm.fault_fired");
             if !o.accepted.is_empty() && o.accepted.len() < sc.b("expect").len() {
@@ -405,7 +408,7 @@ impl Property for C12 {
         "fault_enumeration"
     }
     fn rule(&self) -> &'static str {
-        "one evaluation = one (input, entry point, source/sink scripts, fault plan) execution of the real code; per seeded input a fault-free pilot counts the source calls, sink writes and flushes, then one fault is injected at a call index (quick: sampled; thorough: every index of every site, kinds rotated); distinct = distinct (scenario, event-log) hash; non-trivial = the fault actually fired, or the fault-free run made >= 1 sink write"
+        "one evaluation = one (input, entry point, source/sink scripts, fault plan) execution of the real code; per seeded input a fault-free pilot counts the source calls (refills of a buffered source, or - for a quarter of the non-Stream runs - every read/fill_buf call, which may then fail also while bytes are still buffered), sink writes and flushes, then one fault is injected at a call index (quick: sampled; thorough: every index of every site, kinds rotated); distinct = distinct (scenario, event-log) hash; non-trivial = the fault actually fired, or the fault-free run made >= 1 sink write"
     }
     fn runs(&self, tier: Tier) -> u64 {
         match tier {
